@@ -10,13 +10,13 @@ static void putc_(stream_t * s, int c) { unsigned char ch = (unsigned char) c; p
 
 static const char * const headers[] = { "*CLS", "*ESE", "*ESE?", "*ESR?", "*IDN?", "*OPC", "*OPC?", "*RST", "*SRE", "*SRE?", "*STB?", "*TST?", "*WAI", "SYST:ERR?", "SYSTem:ERRor:NEXT?",
     "SYST:ERR:COUN?", "SYST:VERS?", "STAT:QUES?", "STAT:QUES:ENAB", "STAT:QUES:ENAB?", "STAT:OPER?", "STAT:OPER:ENAB", "STAT:PRES", "A", "B?", "TEST1:VAL2", "TEST:VALUE33:SUB4",
-    "test:val", "MEAS:VOLT:DC?", ":VOLT?", "VOLTage:DC?", "CONF:TEXT", "DATA:BLOC", "DATA:ARR?", "ROUT:CLOS", "X", "Y?", "Z", "W?", "TEST:MISC?", "TEST7:MISC:X9?", "SYST:PUSH",
+    "test:val", "MEAS:VOLT:DC?", ":VOLT?", "VOLTage:DC?", "CONF:TEXT", "DATA:BLOC", "DATA:ARR?", "ROUT:CLOS", "X", "Y?", "Z", "W?", "TEST:MISC?", "TEST7:MISC:X9?", "SYST:PUSH", "DATA:ANN?", "DATA:ANNOUNCE?",
     "FOO", "*FOO?", "VAL2", "SUB", "ERR?", ":", "*", "SYST:", "TEST99999999999:VAL", "A1", "MEAS:VOLT:DC:X?", "??", "A:B:C:D:E:F:G:H", "BLOC" };
 #define NH (sizeof headers / sizeof headers[0])
 
 static void gen_number(vh_rng_t * r, stream_t * s) {
     static const char * const nums[] = { "0", "1", "-1", "+5", "12.5", ".5", "5.", "1e3", "1E+3", "1 E 3", "1e", "1e+", "-", "+", ".", "9999999999999999999999", "1e400", "-1e-400", "0x10", "1.2.3",
-        "#H", "#HFF", "#hffffffffffffffffff", "#Q777", "#Q8", "#B101", "#B2", "#", "4294967296", "-2147483649", "18446744073709551616", "1e-320", "00000000000000000000000000000001" };
+        "#H", "#HFF", "#hffffffffffffffffff", "#Q777", "#Q8", "#B101", "#B2", "#", "4294967296", "-2147483649", "18446744073709551616", "1e-320", "00000000000000000000000000000001", "99999999", "100000000", "999999999", "1000000000", "4294967295" };
     static const char * const sufs[] = { "", "V", " V", "MV", " kohm", "HZ", "FOO", " E", "V/S", "V.S-1", "/", "M-", "S2", " DBM", "mhz", "EV" };
     if (vh_chance(r, 1, 6)) {
         /* long decimal tokens with the white space 488.2 allows around the exponent mark: total non-blank length swept around
